@@ -58,3 +58,71 @@ def check_padded_index(chk, rule, site, sub_term, loc):
     return False
   chk.ok(rule, key, f'index class: {kind}', sub_term.loc or loc)
   return True
+
+
+# ---------------------------------------------------------------- VWEIGHT
+SIGMA_PROPS = {f'sigma_coordinates.SigmaCoordinates.{p}' for p in ('layer_thickness', 'centers', 'center_to_center', 'layers', 'internal_boundaries')}
+MEASURE_CALLS = ('get_sigma_ratios', 'get_temperature_implicit_weights', 'get_geopotential_weights')
+
+
+def is_measure(t):
+  """Atoms that carry a vertical quadrature measure (Δσ, Δ log σ or matrices built from them)."""
+  if t.k == 'attr' and t.a[1] in ('layer_thickness', 'center_to_center'):
+    return True
+  if t.k == 'call' and util.callee_name(t) in MEASURE_CALLS:
+    return True
+  if t.k == 'call' and t.a[0].k == 'ext' and t.a[0].a[0] in ('numpy.diff', 'jax.numpy.diff'):
+    return sym.contains(t, lambda x: x.k == 'attr' and x.a[1] in ('centers', 'boundaries'))
+  return False
+
+
+def prefix_sum_sites(ev, value_terms, include_sum=False):
+  out = {}
+  for v in value_terms:
+    for t in sym.walk(v):
+      if t.k != 'call':
+        continue
+      q = util.callee_qual(t)
+      name = None
+      operand = None
+      if q in ('dinosaur.jax_numpy_utils.cumsum', 'dinosaur.jax_numpy_utils.reverse_cumsum', 'numpy.cumsum', 'jax.numpy.cumsum'):
+        name = q.rsplit('.', 1)[-1]
+        operand = t.a[1][0] if t.a[1] else dict(t.a[2]).get('x')
+      elif t.a[0].k == 'attr' and t.a[0].a[1] in ('cumsum',) or (include_sum and t.a[0].k == 'attr' and t.a[0].a[1] == 'sum' and 'axis' in dict(t.a[2])):
+        name = '.' + t.a[0].a[1]
+        operand = t.a[0].a[0]
+      if name is None or operand is None:
+        continue
+      key = (t.loc, name)
+      out.setdefault(key, (t, operand))
+  return out
+
+
+def rule_vweight(chk, prog, rule, modules):
+  """Every vertical prefix / total sum integrates a measure-weighted operand."""
+  n = 0
+  for m in modules:
+    mod = prog.module(m)
+    funcs = list(mod.functions.values())
+    for c in mod.classes.values():
+      funcs.extend(c.methods.values())
+    for f in funcs:
+      ev = sym.Evaluator(prog, sym.Options(opaque=SIGMA_PROPS | {f'primitive_equations.{x}' for x in MEASURE_CALLS}, max_depth=2))
+      try:
+        v, ctx, env = ev.run(f)
+      except RecursionError:
+        continue
+      values = [v] + [x for x in env.values() if isinstance(x, Term)]
+      sites = prefix_sum_sites(ev, values, include_sum=(m == 'sigma_coordinates'))
+      for (loc, name), (t, operand) in sorted(sites.items(), key=lambda kv: str(kv[0])):
+        if loc is None or loc[0] != f.file:
+          continue
+        if not (f.lineno <= loc[1] <= (f.node.end_lineno or f.lineno)):
+          continue  # a site inlined from another function is reported there
+        ok = sym.contains(operand, is_measure)
+        key = f'{f.qualname.replace("dinosaur.", "")}: {name}({sym.show(operand, maxdepth=3)[:70]})'
+        chk.check(ok, rule, key, 'operand carries a vertical measure (Δσ / Δlog σ)' if ok else
+                  'a vertical prefix/total sum of a bare field: the discrete ∫dσ needs the layer weight (wrong on unevenly spaced levels)', loc,
+                  'operand data-dependent on layer_thickness / sigma ratios', sym.show(operand, maxdepth=6)[:200])
+        n += 1
+  return n
